@@ -19,6 +19,8 @@ where
 
     let some_target = Some(&target);
     let mut nearest = None;
+    // The value at `nearest`; the candidate may only ever be replaced by a closer (greater) one
+    let mut nearest_value: Option<V> = None;
 
     let mut first_value = f(0).await?;
     let mut first_value_ref = first_value.as_ref();
@@ -51,8 +53,9 @@ where
                 continue;
             }
 
-            if mid_value_ref <= some_target {
+            if mid_value_ref <= some_target && mid_value_ref > nearest_value.as_ref() {
                 nearest = Some(mid);
+                nearest_value = mid_value.clone();
             }
 
             if mid_value_ref == some_target {
@@ -84,8 +87,9 @@ where
         let value = f(mid).await?;
         let value_ref = value.as_ref();
 
-        if value_ref.is_some() && value_ref <= some_target {
+        if value_ref.is_some() && value_ref <= some_target && value_ref > nearest_value.as_ref() {
             nearest = Some(mid);
+            nearest_value = value.clone();
         }
 
         if value_ref == some_target {
